@@ -40,7 +40,8 @@ Theorem reject_only_if_over_today : forall base cs c,
   let w := reach cfg_gen base cs in
   let now := w_clock w + k_gap c in
   let o := snd (step cfg_gen w c) in
-  o_res o = RUnavailable \/ o_res o = RFallback ->
+  (* ErrServiceUnavailable / the fallback's value came back and the request did not run *)
+  (o_res o = RUnavailable \/ o_res o = RFallback) /\ o_req o = 0 ->
   let vals := window_vals cfg_gen base (w_marks w) now in
   (* non-accepted (failures + rejections) > 5 + 10% of accepted *)
   50 + n_success vals < 10 * (n_fail vals + n_drop vals).
